@@ -189,7 +189,7 @@ class Ctx:
         mod = "Whv.Props.%s" % self.pid
         path = os.path.join(LEAN, "Whv", "Props", self.pid + ".lean")
         src = strip_lean_comments(read(path))
-        names = re.findall(r"^\s*(?:protected\s+|private\s+)?theorem\s+([^\s:({\[]+)", src, re.M)
+        names = re.findall(r"^(?:protected\s+)?theorem\s+([^\s:({\[]+)", src, re.M)  # private helpers are not obligations
         ns = re.search(r"^namespace\s+(\S+)", src, re.M)
         prefix = (ns.group(1) + ".") if ns else ""
         names = [prefix + n for n in names]
